@@ -1420,7 +1420,9 @@ public:
     }
     void tstb(SttMod a, Imm16 b) {
         u16 value = RegToBus16(a.GetName());
-        regs.fz = (value >> b.Unsigned16()) & 1;
+        u16 bit = b.Unsigned16();
+        // a 16-bit value has no bit 16 and above (and shifting by >= 32 would be undefined behaviour)
+        regs.fz = bit < 16 ? (value >> bit) & 1 : 0;
     }
 
     void and_(Ab a, Ab b, Ax c) {
